@@ -96,8 +96,8 @@ PROPS = {
     "C05": {
         "props": "TrackVerif.GP.PropsC05",
         "streams": [("GP", 2500, 40000)],
-        "clauses": ["gp.at_most_once", "gp.no_clobber", "gp.argv_shape", "gp.temp_gone", "gp.sources_intact", "gp.listed_are_outputs", "gp.input_slot", "gp.process", "gp.no_crash"],
-        "rule": "as C04; configs vary overwrite, skip lists, output dir in {'', '.', other}, five templates (incl. one constant name shared by all groups), five argument lists with -i \"\" at different "
+        "clauses": ["gp.at_most_once", "gp.no_clobber", "gp.argv_shape", "gp.temp_gone", "gp.sources_intact", "gp.listed_are_outputs", "gp.input_slot", "gp.process", "gp.no_crash", "gp.osfs"],
+        "rule": "as C04; every 25th case drives the processor's real os-backed filesystem adapter (hook VerifBaseFS) through random create/chtimes/stat/remove/createtemp/readdir sequences in a scratch directory and compares with the model filesystem the theorems assume; configs vary overwrite, skip lists, output dir in {'', '.', other}, five templates (incl. one constant name shared by all groups), five argument lists with -i \"\" at different "
                 "positions; pre-existing outputs; half of the runs inject one failing operation (stat, readdir, temp create, temp write, close, encoder run, chtimes) at a random position; "
                 "corpus: one scenario with EVERY single failing operation position 0..21 enumerated; recording in-memory filesystem installed through the verif hook",
         "trusted_base": KERNEL + TIE + ["OS filesystem modelled as a map path -> mtime with one injected failing operation; Remove never fails (outside the property's fault list)",
@@ -108,8 +108,8 @@ PROPS = {
     "C06": {
         "props": "TrackVerif.GPMF.PropsC06",
         "streams": [("GM", 2500, 40000)],
-        "clauses": ["gm.read", "gm.no_panic", "gm.no_hang"],
-        "rule": "PRNG(seed) KLV trees written by the harness: 1..2 devices x 0..3 streams (some nested one level deeper), all 16 value types under unparsed keys with size 1..255, "
+        "clauses": ["gm.walk", "gm.walk_no_panic", "gm.read", "gm.no_panic", "gm.no_hang"],
+        "rule": "every 8th case runs the real gpmf.Walk over a generated tree with a random set of elements answered ErrSkip and optionally one failing element, and compares the visited sequence with the walker model; PRNG(seed) KLV trees written by the harness: 1..2 devices x 0..3 streams (some nested one level deeper), all 16 value types under unparsed keys with size 1..255, "
                 "repeat 0..40, every padding residue, extreme payloads (all-zero, all-ones, sign bit), dates, strings with NUL/Latin-1 bytes; sensors with SCAL, metadata, faces; "
                 "plus mutated trees, mutated real captures and random bytes; corpus: past crashers and the real .raw captures (two small ones in quick, all four in thorough); "
                 "non-trivial = >= 16 bytes; distinct by SHA-1",
